@@ -37,6 +37,7 @@ class Explorer:
         self.queries = 0
         self.timeout_ms = timeout_ms
         self.fresh = {}
+        self.active = False
         self.cur = None
         self.total_decisions = 0
 
@@ -51,6 +52,7 @@ class Explorer:
         self.fresh = {}
         self.inputs = {}
         self.pending = []
+        self.active = True
         self.uf_calls = []      # (name, arg SymBytes, out SymBytes) for table extraction
         self.path_state = {}    # per-path scratch for stubs
 
@@ -151,6 +153,7 @@ class Explorer:
                 outcome = ("exc", e)
             except Exception as e:  # noqa: BLE001 - the library's own exceptions are outcomes
                 outcome = ("exc", e)
+            self.active = False
             work.extend(self.pending)
             self.total_decisions += len(self.decisions)
             if outcome is not None:
@@ -482,9 +485,13 @@ class SymInt:
         w = max(self.w, 8 * length + 1)
         e = self.ext(w)
         items = []
+        top = self.hi if self.lo >= 0 else (1 << (8 * length)) - 1
         for i in range(length):
+            if self.lo >= 0 and (top >> (8 * i)) == 0:
+                items.append(0)          # above the value's known magnitude: a zero byte, not a symbol
+                continue
             b = z3.Extract(8 * i + 7, 8 * i, e)
-            items.append(SymInt.mk(z3.ZeroExt(1, b), 0, 255))
+            items.append(SymInt.mk(z3.ZeroExt(1, b), 0, min(255, top >> (8 * i)) if self.lo >= 0 else 255))
         if byteorder == "big":
             items.reverse()
         return SymBytes(items)
@@ -511,12 +518,41 @@ def _sub(a, b):
     return _iv(a.ext(w) - b.ext(w), lo, hi)
 
 
+# Wide arithmetic abstraction (harness opt-in, for differential claims "library == transcription"):
+# a product of two symbolic operands / a quotient by a non-power-of-two whose width exceeds
+# ABSTRACT_BITS becomes an application of an uninterpreted z3 function. A claim proved for
+# every interpretation holds for the real operator; a counterexample may be spurious and is
+# caught by the mandatory concrete replay (reported as inconclusive, never as a violation).
+ABSTRACT_BITS = None
+_ABS_FUNCS = {}
+
+
+def _abs_fn(kind, w):
+    k = (kind, w)
+    if k not in _ABS_FUNCS:
+        s = z3.BitVecSort(w)
+        _ABS_FUNCS[k] = z3.Function(f"{kind}{w}", s, s, s)
+    return _ABS_FUNCS[k]
+
+
+def _abs_width(w):
+    # one shared width (hence one function symbol) for everything that fits, so that the two sides of a
+    # differential claim meet in the same uninterpreted function whatever their interval bookkeeping says
+    return 640 if w <= 640 else ((w + 639) // 640) * 640
+
+
 def _mul(a, b):
     c = [a.lo * b.lo, a.lo * b.hi, a.hi * b.lo, a.hi * b.hi]
     lo, hi = min(c), max(c)
     if lo == hi:
         return lo
     w = max(_bits_for(lo, hi), a.w, b.w)
+    if ABSTRACT_BITS is not None and w > ABSTRACT_BITS and not a.concrete and not b.concrete:
+        aw = _abs_width(w)
+        ea, eb = a.ext(aw), b.ext(aw)
+        r = SymInt(_abs_fn("mul", aw)(ea, eb), -(1 << (aw - 1)), (1 << (aw - 1)) - 1)
+        CUR.assume_z3(z3.And(r._e >= lo, r._e <= hi))
+        return SymInt.mk(r._e, lo, hi)
     return _iv(a.ext(w) * b.ext(w), lo, hi)
 
 
@@ -558,6 +594,12 @@ def _floordiv(a, b):
                 cands.append(x // y)
     lo, hi = min(cands), max(cands)
     w = max(a.w, b.w) + 1
+    if (ABSTRACT_BITS is not None and w > ABSTRACT_BITS and not a.concrete
+            and not (b.concrete and b.lo > 0 and b.lo & (b.lo - 1) == 0)):
+        aw = _abs_width(w)
+        r = _abs_fn("floordiv", aw)(a.ext(aw), b.ext(aw))
+        CUR.assume_z3(z3.And(r >= lo, r <= hi))
+        return SymInt.mk(r, lo, hi)
     if a.lo >= 0 and b.lo > 0:
         e = z3.UDiv(a.ext(w), b.ext(w))
     else:
